@@ -12,6 +12,14 @@ import (
 	nject "github.com/muir/nject/v2"
 )
 
+// argsOnly describes a signature (ReflectiveArgs) but cannot be called
+type argsOnly struct{}
+
+func (argsOnly) In(i int) reflect.Type { panic("no inputs") }
+func (argsOnly) NumIn() int            { return 0 }
+func (argsOnly) Out(i int) reflect.Type { return codeType[0] }
+func (argsOnly) NumOut() int           { return 1 }
+
 type probe struct {
 	name string
 	f    func() error // returns the error the API reported (nil = accepted)
@@ -339,6 +347,47 @@ func apiProbes() []probe {
 		}},
 		{"DetailedError(nil)", func() error { _ = nject.DetailedError(nil); return nil }},
 		{"DetailedError(foreign)", func() error { _ = nject.DetailedError(fmt.Errorf("x")); return nil }},
+		{"variadic provider (bind, then invoke)", func() error {
+			var f func(int) string
+			err := nject.Sequence("p", func() []string { return []string{"a", "b"} }, func(i int, s ...string) string { return fmt.Sprint(i, s) }).Bind(&f, nil)
+			if err != nil {
+				return err
+			}
+			f(3)
+			return nil
+		}},
+		{"variadic injector in the middle (bind, then invoke)", func() error {
+			var f func(int) string
+			err := nject.Sequence("p", func() []string { return []string{"a"} }, func(i int, s ...string) T0 { return T0{Tag: uint64(len(s))} },
+				func(a T0) string { return fmt.Sprint(a.Tag) }).Bind(&f, nil)
+			if err != nil {
+				return err
+			}
+			f(3)
+			return nil
+		}},
+		{"variadic invoke function", func() error {
+			var f func(i int, s ...string) string
+			err := nject.Sequence("p", func(i int, s []string) string { return fmt.Sprint(i, s) }).Bind(&f, nil)
+			if err != nil {
+				return err
+			}
+			f(3, "a", "b")
+			return nil
+		}},
+		{"provider implementing ReflectiveArgs only (bind, then invoke)", func() error {
+			var f func() string
+			err := nject.Sequence("p", argsOnly{}, func(a T0) string { return "x" }).Bind(&f, nil)
+			if err != nil {
+				return err
+			}
+			f()
+			return nil
+		}},
+		{"SetCallback(typed nil func)", func() error {
+			var cb func(func(T0) T1)
+			return nject.Sequence("g", func(a T0) T1 { return T1{Tag: a.Tag} }).SetCallback(cb)
+		}},
 		// a Reflective provider is checked like a function: TerminalError twice is refused, not bound and then mis-delivered
 		{"Reflective provider returning TerminalError twice (bind, then invoke)", func() error {
 			te := reflect.TypeOf((*nject.TerminalError)(nil)).Elem()
